@@ -48,6 +48,45 @@ def obs_comp(c):
     return [c.name if c.name is not None else "", props, [obs_comp(s) for s in c.subcomponents], errs]
 
 
+def py_value(v):
+    """the decoded Python value of a property value, canonically (kind + wall fields + UTC offset; never a repr with
+    addresses): what "the same typed values" means beyond the wire text"""
+    import datetime as _d
+
+    def one(x):
+        x = getattr(x, "dt", x)
+        if isinstance(x, _d.datetime):
+            off = x.utcoffset()
+            return ["datetime", x.replace(tzinfo=None).isoformat(), None if off is None else int(off.total_seconds())]
+        if isinstance(x, _d.date):
+            return ["date", x.isoformat()]
+        if isinstance(x, _d.timedelta):
+            return ["timedelta", x.days, x.seconds, x.microseconds]
+        if isinstance(x, _d.time):
+            return ["time", x.isoformat()]
+        if isinstance(x, tuple):
+            return ["tuple"] + [one(y) for y in x]
+        return None
+    try:
+        if hasattr(v, "dts"):
+            return ["list"] + [one(x) for x in v.dts]
+        if hasattr(v, "dt"):
+            return one(v.dt)
+        if hasattr(v, "td"):
+            return one(v.td)
+        if hasattr(v, "start") and hasattr(v, "end"):
+            return ["period", one(v.start), one(v.end)]
+    except Exception as e:  # noqa: BLE001
+        return ["err", type(e).__name__]
+    return None
+
+
+def obs_py(c):
+    """per component, per property: the decoded Python values (see py_value)"""
+    return [c.name or "", [[k, [py_value(v) for v in (c[k] if isinstance(c[k], list) else [c[k]])]] for k in sorted(c.keys())],
+            [obs_py(s) for s in c.subcomponents]]           # a mapping: insertion order of names is not part of it
+
+
 def has_unser(o):
     return any(v[2].startswith(UNSER) for _, _, vs in o[1] for v in vs) or any(has_unser(s) for s in o[2])
 
@@ -138,6 +177,13 @@ class CacheRecorder:
         return False
 
 
+def fresh_cache():
+    """empty the provider's process-wide time-zone cache (C12-F4/F5: what an earlier parse left there changes how a
+    later text is read, which is not what the tree properties are about)"""
+    from icalendar.timezone import tzp
+    tzp.use_default()
+
+
 def impl_parse(text, multiple=True, cls=None):
     """(observation | ['err', class], cache log, components or None)"""
     import icalendar
@@ -198,6 +244,11 @@ PROP_MENU = [
     ("SUMMARY", "Team meeting"), ("SUMMARY", "a\\, b\\; c\\nd"), ("DESCRIPTION", "x" * 90), ("LOCATION", "Zürich é€😀"),
     ("UID", "uid-1@example.com"), ("DTSTAMP", "20200101T000000Z"), ("DTSTART", "20200102T100000"),
     ("DTSTART;VALUE=DATE", "20200102"), ("DTSTART;TZID=Europe/Berlin", "20200102T100000"),
+    # a VALUE parameter that disagrees with the value text (accepted input: the text decides), multi-valued VALUE
+    ("DTSTART;VALUE=DATE", "20240102T103000"), ("DTEND;VALUE=DATE;TZID=Europe/Berlin", "20240103T000000"),
+    ("DUE;VALUE=DATE-TIME", "20240102"), ("DTSTART;VALUE=date", "20240102T103000Z"), ("X-WHEN;VALUE=DATE-TIME", "20240102T103000Z"),
+    ("X-FOO;VALUE=DATE,TEXT", "20200101"), ('X-FOO;VALUE="DATE","DATE-TIME"', "20200101"), ("COMPLETED;VALUE=DATE", "20240102T103000Z"),
+    ("RDATE;VALUE=DATE", "20240102T103000"), ("TRIGGER;VALUE=DURATION", "20200102T090000Z"),
     ("DTEND", "20200102T110000Z"), ("DURATION", "PT1H"), ("DURATION", "-P1DT2H3M4S"), ("DUE", "20200105T000000Z"),
     ("RRULE", "FREQ=WEEKLY;BYDAY=MO,WE;COUNT=10"), ("RRULE", "FREQ=YEARLY;BYMONTH=3;BYDAY=-1SU;UNTIL=20300101T000000Z"),
     ("EXDATE", "20200109T100000,20200116T100000"), ("RDATE;VALUE=DATE", "20200301,20200401"),
